@@ -503,6 +503,8 @@ class Driver:
             else:
                 dom = [gen.choice(self.symbols) for _ in range(gen.randint(1, 3))]
             prods.append({"name": "p%d" % k, "cod": cod, "dom": dom})
+        if prods and gen.random() < 0.15:
+            prods.append(dict(gen.choice(prods)))          # the same production listed twice
         if gen.random() < 0.15:
             # a box whose codomain is not one symbol: a grammar may contain it, but no
             # derivation step rewrites a single symbol with it, so it can never be used
